@@ -131,7 +131,7 @@ pub fn preflight(case: &Arc<Case>, rt: &mut Rt) -> Result<(), String> {
     fn collect(ops: &[Op], regs: bool, pre: &mut Vec<Op>) {
         for op in ops {
             match op {
-                Op::Exec { prog, .. } | Op::ParseExec { prog, .. } | Op::Parse { prog } | Op::Describe { prog } => {
+                Op::Exec { prog, .. } | Op::ExecSole { prog, .. } | Op::ParseExec { prog, .. } | Op::Parse { prog } | Op::Describe { prog } => {
                     if !regs && matches!(prog, crate::expr::Prog::Stmts(_)) {
                         pre.push(Op::Parse { prog: prog.clone() })
                     }
